@@ -17,7 +17,7 @@ OLEAN = os.path.join(BUILD, "olean")
 CACHE = os.path.join(VERIF, "build", "cache")
 OUT = WORK or VERIF  # evidence/ and replay/ are written here
 _LEAN_VERSION = None
-LOCAL_ROOTS = ("PyModel", "Spec", "Contracts", "Generated", "Probe", "Baseline", "ContractsBase")
+LOCAL_ROOTS = ("PyModel", "Spec", "Contracts", "Generated", "Probe", "Baseline", "ContractsBase", "Tools")
 
 
 def lean_version() -> str:
@@ -55,6 +55,9 @@ class Result:
         self.output = ""
         self.key = ""
         self.skipped = False  # a dependency failed
+        self.degraded = False  # the module has errors, but an .olean was written by the error-tolerant driver (Tools/Tolerant.lean):
+        #                        failed proofs are `sorryAx`, declarations whose statement failed are absent
+        self.timeout = False
 
 
 def closure(mods: list[str]) -> list[str]:
@@ -74,8 +77,10 @@ def closure(mods: list[str]) -> list[str]:
     return order
 
 
-def build(mods: list[str], jobs: int = 16, timeout: int = 1500, verbose: bool = False) -> dict[str, Result]:
-    """Compile `mods` and their local dependencies. Returns per-module results."""
+def build(mods: list[str], jobs: int = 16, timeout: int = 1500, verbose: bool = False, tolerant: bool = False) -> dict[str, Result]:
+    """Compile `mods` and their local dependencies. Returns per-module results.
+    tolerant=True: a module that `lean -o` rejects is elaborated again by Tools/Tolerant.lean, which writes the .olean in spite of the
+    errors (Result.degraded); modules importing it are then still checked, so that a failure only affects the theorems that depend on it."""
     order = closure(mods)
     texts = {m: open(module_path(m)).read() for m in order}
     deps = {m: local_imports(texts[m]) for m in order}
@@ -98,9 +103,10 @@ def build(mods: list[str], jobs: int = 16, timeout: int = 1500, verbose: bool = 
     def one(m):
         r = results[m]
         r.key = keys[m]
-        if any(not results[d].ok for d in deps[m]):
+        usable = lambda d: results[d].ok or (tolerant and results[d].degraded)  # noqa: E731
+        if any(not usable(d) for d in deps[m]):
             r.skipped = True
-            r.output = "skipped: a dependency failed: " + ", ".join(d for d in deps[m] if not results[d].ok)
+            r.output = "skipped: a dependency failed: " + ", ".join(d for d in deps[m] if not usable(d))
             return r
         cdir = os.path.join(CACHE, keys[m])
         dst = olean_of(m)
@@ -110,6 +116,12 @@ def build(mods: list[str], jobs: int = 16, timeout: int = 1500, verbose: bool = 
             r.ok, r.cached = True, True
             r.output = open(os.path.join(cdir, "out.txt")).read()
             r.seconds = float(open(os.path.join(cdir, "ok")).read() or 0)
+            return r
+        if tolerant and os.path.exists(os.path.join(cdir, "degraded")):
+            _atomic_copy(os.path.join(cdir, "m.olean"), dst)
+            r.degraded, r.cached = True, True
+            r.output = open(os.path.join(cdir, "out.txt")).read()
+            r.seconds = float(open(os.path.join(cdir, "degraded")).read() or 0)
             return r
         t = time.time()
         try:
@@ -126,14 +138,27 @@ def build(mods: list[str], jobs: int = 16, timeout: int = 1500, verbose: bool = 
             r.output = f"TIMEOUT after {timeout}s"
             r.ok = False
             r.timeout = True
+        if not r.ok and tolerant and not r.timeout:
+            try:
+                tmp_out = f"{dst}.{os.getpid()}.{threading.get_ident()}.tol"
+                p = subprocess.run(["lean", "--run", os.path.join(VERIF, "lean", "Tools", "Tolerant.lean"), module_path(m), m, tmp_out],
+                                   capture_output=True, text=True, env=env, cwd=LEAN_SRC, timeout=timeout * 2)
+                if os.path.exists(tmp_out) and os.path.getsize(tmp_out) > 0:
+                    os.replace(tmp_out, dst)
+                    r.degraded = True
+                    r.output = r.output + "\n--- error-tolerant build: " + (p.stderr.strip().splitlines() or ["?"])[-1]
+                else:
+                    r.output += "\n--- error-tolerant build failed: " + (p.stdout + p.stderr)[-2000:]
+            except subprocess.TimeoutExpired:
+                r.output += "\n--- error-tolerant build: TIMEOUT"
         r.seconds = time.time() - t
-        if r.ok:
+        if r.ok or r.degraded:
             os.makedirs(cdir, exist_ok=True)
             _atomic_copy(dst, os.path.join(cdir, "m.olean"))
             open(os.path.join(cdir, "out.txt"), "w").write(r.output)
-            open(os.path.join(cdir, "ok"), "w").write(f"{r.seconds:.2f}")
+            open(os.path.join(cdir, "ok" if r.ok else "degraded"), "w").write(f"{r.seconds:.2f}")
         if verbose:
-            print(f"  [{'ok' if r.ok else 'FAIL'}] {m} {r.seconds:.1f}s", flush=True)
+            print(f"  [{'ok' if r.ok else 'DEGRADED' if r.degraded else 'FAIL'}] {m} {r.seconds:.1f}s", flush=True)
         return r
 
     # level scheduling
